@@ -122,3 +122,28 @@ def simpson_weights(n, delta):
         dc = -dc
     w[n - 1] = 1
     return w * (delta / 3.0)
+
+
+def sprinkle(r, o, wd=None, clamp_ok=False, padding_ok=True, cutoff_ok=True, tracking_ok=True):
+    """Adds options that must not matter to the quantity a check looks at ("nuisance" options), each with a small probability, so that
+    the rarely used branches of main() are part of every program-level workload: tracking model without / with a tracking file, verbosity,
+    cut-off frequency of the CSR output, padding of the transform, clamped interpolation (only where the oracle compares the code with
+    itself: a limiter legitimately changes the physics).  Returns the list of what was added (for the evidence)."""
+    added = []
+    if "FPTrack" not in o and r.chance(0.2):
+        o["FPTrack"] = r.choice([0, 1, 2]); added.append("FPTrack")
+    if "verbose" not in o and r.chance(0.1):
+        o["verbose"] = True; added.append("verbose")
+    if cutoff_ok and "CutoffFreq" not in o and r.chance(0.15):
+        o["CutoffFreq"] = r.choice([0.0, 1e10, 1e11]); added.append("CutoffFreq")
+    if padding_ok and "padding" not in o and r.chance(0.15):
+        o["padding"] = r.choice([2.0, 3.0, 4.0]); added.append("padding")
+    if clamp_ok and "InterpolateClamped" not in o and r.chance(0.15):
+        o["InterpolateClamped"] = True; added.append("InterpolateClamped")
+    if tracking_ok and wd is not None and "tracking" not in o and r.chance(0.15):
+        path = os.path.join(wd, "nuisance_trk.txt")
+        with open(path, "w") as fh:
+            for k in range(r.randint(1, 4)):
+                fh.write("%.3f %.3f\n" % (r.uniform(-3, 3), r.uniform(-3, 3)))
+        o["tracking"] = path; added.append("tracking")
+    return added
